@@ -161,12 +161,17 @@ pub open spec fn lg<T: Default>(cs: Seq<T>, co: Seq<usize>, rp: Seq<usize>, l: i
     if in_phys(rp, i, l) && 0 <= c < rlen(co, i) { cs[co[i] + c] } else { dflt::<T>() }
 }
 pub open spec fn nd<T: Default>(cs: Seq<T>, co: Seq<usize>, rp: Seq<usize>, l: int, c: int) -> bool { lg(cs, co, rp, l, c) != dflt::<T>() }
-/// repeat counts are positive (ODF: positiveInteger) and the sheet fits the u32 coordinates of Range
+/// the grid of a sheet: 2^20 rows, 2^14 columns (the limits of LibreOffice Calc and of Excel)
+pub open spec fn grid_rows() -> int { 1_048_576 }
+pub open spec fn grid_cols() -> int { 16_384 }
+/// what read_table checks before it hands the rows to get_range: repeat counts are positive (ODF 1.2 19.676: positiveInteger), and the
+/// sheet stays within the grid (so it fits the u32 coordinates of Range)
 pub open spec fn hyp<T>(cs: Seq<T>, co: Seq<usize>, rp: Seq<usize>) -> bool {
     &&& reps_pos(rp)
-    &&& rep_sum(rp, rp.len() as int) <= u32::MAX
-    &&& cs.len() <= u32::MAX
+    &&& rep_sum(rp, rp.len() as int) <= grid_rows()
+    &&& cols_in_grid(co)
 }
+pub open spec fn cols_in_grid(co: Seq<usize>) -> bool { forall|i: int| 0 <= i < co.len() - 1 ==> #[trigger] rlen(co, i) <= grid_cols() }
 pub open spec fn reps_pos(rp: Seq<usize>) -> bool { forall|i: int| 0 <= i < rp.len() ==> #[trigger] rp[i] >= 1 }
 pub open spec fn row_has_nd<T: Default>(cs: Seq<T>, co: Seq<usize>, rp: Seq<usize>, l: int) -> bool { exists|c: int| nd(cs, co, rp, l, c) }
 pub open spec fn col_has_nd<T: Default>(cs: Seq<T>, co: Seq<usize>, rp: Seq<usize>, c: int) -> bool { exists|l: int| nd(cs, co, rp, l, c) }
@@ -476,38 +481,39 @@ proof fn lemma_encoding_independent<T: Default>(cs1: Seq<T>, co1: Seq<usize>, rp
     __r }
 //@@ end
 
-// `entry`: the repeat counts (`number-rows-repeated`, parsed with str::parse::<usize>) reach get_range unchecked, so its arithmetic
-// obligations are C06 obligations.  The `requires` below does NOT constrain them: it only states what read_table establishes by
-// construction (cols = running cells.len(), one repeat count per row), the laws of the cell type, and a resource bound.
+// `entry`: get_range's arithmetic obligations are C06 obligations.  The `requires` below states what read_table establishes (proved at
+// the call sites in unit odsxml): by construction (cols = running cells.len(), one repeat count per row), by its checks of the file's
+// repeat counts (`hyp`: every `number-rows-repeated` is positive, the rows stay within the 2^20 rows of a sheet, and read_row keeps
+// every row within the 2^14 columns), and the laws of the cell type.  No resource bound is needed any more.
 //@@ fn src/ods.rs get_range props=C04 entry ret=r
 //@@ sig
     requires
         lawful::<T>(),
         wf_shape(cells@, cols@, rows_repeats@),
-        // resource bound: fewer than 2^31 physical rows and cells (the product `height * width` is computed in usize)
-        cols@.len() <= 0x7fff_ffff, cells@.len() <= 0x7fff_ffff,
+        reps_pos(rows_repeats@),
+        rep_sum(rows_repeats@, rows_repeats@.len() as int) <= grid_rows(),
+        cols_in_grid(cols@),
     ensures
         //# C04.empty_iff
-        hyp(cells@, cols@, rows_repeats@) ==>
-            ((forall|l: int, c: int| !nd(cells@, cols@, rows_repeats@, l, c)) <==> r.data().len() == 0),
+        (forall|l: int, c: int| !nd(cells@, cols@, rows_repeats@, l, c)) <==> r.data().len() == 0,
         //# C04.empty_is_default_range
-        hyp(cells@, cols@, rows_repeats@) && r.data().len() == 0 ==> r.lo() == (0u32, 0u32) && r.hi() == (0u32, 0u32),
+        r.data().len() == 0 ==> r.lo() == (0u32, 0u32) && r.hi() == (0u32, 0u32),
         //# C04.bbox_contains
-        hyp(cells@, cols@, rows_repeats@) ==> forall|l: int, c: int| nd(cells@, cols@, rows_repeats@, l, c) ==>
+        forall|l: int, c: int| nd(cells@, cols@, rows_repeats@, l, c) ==>
             r.lo().0 <= l <= r.hi().0 && r.lo().1 <= c <= r.hi().1,
         //# C04.bbox_tight_top
-        hyp(cells@, cols@, rows_repeats@) && r.data().len() > 0 ==> row_has_nd(cells@, cols@, rows_repeats@, r.lo().0 as int),
+        r.data().len() > 0 ==> row_has_nd(cells@, cols@, rows_repeats@, r.lo().0 as int),
         //# C04.bbox_tight_bottom
-        hyp(cells@, cols@, rows_repeats@) && r.data().len() > 0 ==> row_has_nd(cells@, cols@, rows_repeats@, r.hi().0 as int),
+        r.data().len() > 0 ==> row_has_nd(cells@, cols@, rows_repeats@, r.hi().0 as int),
         //# C04.bbox_tight_left
-        hyp(cells@, cols@, rows_repeats@) && r.data().len() > 0 ==> col_has_nd(cells@, cols@, rows_repeats@, r.lo().1 as int),
+        r.data().len() > 0 ==> col_has_nd(cells@, cols@, rows_repeats@, r.lo().1 as int),
         //# C04.bbox_tight_right
-        hyp(cells@, cols@, rows_repeats@) && r.data().len() > 0 ==> col_has_nd(cells@, cols@, rows_repeats@, r.hi().1 as int),
+        r.data().len() > 0 ==> col_has_nd(cells@, cols@, rows_repeats@, r.hi().1 as int),
         //# C04.len_is_h_times_w
-        hyp(cells@, cols@, rows_repeats@) && r.data().len() > 0 ==>
+        r.data().len() > 0 ==>
             r.data().len() == (r.hi().0 - r.lo().0 + 1) * (r.hi().1 - r.lo().1 + 1),
         //# C04.placement
-        hyp(cells@, cols@, rows_repeats@) && r.data().len() > 0 ==>
+        r.data().len() > 0 ==>
             forall|l: int, c: int| r.lo().0 <= l <= r.hi().0 && r.lo().1 <= c <= r.hi().1 ==>
                 r.data()[(l - r.lo().0) * (r.hi().1 - r.lo().1 + 1) + (c - r.lo().1)] == lg(cells@, cols@, rows_repeats@, l, c),
 //@@ closure 0
@@ -524,12 +530,19 @@ proof fn lemma_encoding_independent<T: Default>(cs1: Seq<T>, co1: Seq<usize>, rp
     let ghost mut gx_c: int = 0;
     let ghost mut gmin: int = 0;
     let ghost mut gmax: int = 0;
+    proof {
+        // positive repeat counts: no more physical rows than logical rows
+        lemma_rep_sum_ge(rp, 0, rp.len() as int);
+        assert(rep_sum(rp, 0) == 0);
+        assert(n <= grid_rows());
+    }
 //@@ r6 0 iter /cols\.windows\(2\)\.enumerate\(\)/ Verus cannot attach a specification to the provided trait method Iterator::enumerate; the expression is moved verbatim into the trusted wrapper verif_windows_enumerate
 verif_windows_enumerate(cols, 2)
 //@@ r6 1
 //@@ loop 0
             invariant
                 cs == cells@, co == cols@, rp == rows_repeats@, n == co.len() - 1, wf_shape(cs, co, rp), lawful::<T>(),
+                hyp(cs, co, rp), n <= grid_rows(),
                 __it0.obeys_prophetic_iter_laws(), 0 <= k <= n, enum_win_ok(co, 2, k, __it0.remaining()),
                 bbox_inv(cs, co, rp, k, row_min, row_max, col_min, col_max, first_empty_rows_repeated, gm_c, gx_c, gmin, gmax),
             ensures
@@ -553,6 +566,8 @@ verif_windows_enumerate(cols, 2)
             let ghost mut plast: int = 0;
 //@@ after /if let Some\(p\) = row\.iter\(\)\.position\([^{]*\{/
                 proof {
+                    // the leading repeat counts add up to at most the rows of the sheet
+                    lemma_rep_sum_mono(rp, k, n);
                     // p is the first non-default cell of physical row k
                     assert(row@[p as int] != dflt::<T>());
                     assert forall|j: int| 0 <= j < p implies row@[j] == dflt::<T>() by { }
@@ -639,6 +654,7 @@ verif_windows_enumerate(cols, 2)
         // col_max indexes a cell of physical row gmax
         assert(col_max < rlen(co, gmax));
         assert(co[gmax + 1] <= co[n]);
+        assert(rlen(co, gmax) <= grid_cols());
         assert(col_max + 1 <= 0x7fff_ffff);
         assert((row_max + 1 - row_min) * (col_max + 1 - col_min) <= 0x7fff_ffff * 0x7fff_ffff) by (nonlinear_arith)
             requires 0 <= row_max + 1 - row_min <= 0x7fff_ffff, 0 <= col_max + 1 - col_min <= 0x7fff_ffff;
@@ -647,13 +663,14 @@ verif_windows_enumerate(cols, 2)
             invariant
                 cs == cells@, co == cols@, rp == rows_repeats@, n == co.len() - 1, wf_shape(cs, co, rp), lawful::<T>(),
                 bbox_inv(cs, co, rp, n, Some(row_min), x0, col_min, col_max, first_empty_rows_repeated, gm_c, gx_c, gmin, gmax),
+                hyp(cs, co, rp), n <= grid_rows(),
                 m == row_min, total == imin(n, m + x0 + 1), l0 == rep_sum(rp, m),
                 __it1.obeys_prophetic_iter_laws(), m <= t <= total, zip_ok(co, rp, t, total, __it1.remaining()),
                 empty_cells@.len() == col_max + 1, forall|j: int| 0 <= j < empty_cells@.len() ==> empty_cells@[j] == dflt::<T>(),
                 m <= pb <= t, pb <= x0 + 1, t > x0 ==> pb == x0 + 1, t > m ==> pb > m,
                 forall|i: int| pb <= i < t ==> blank_row(cs, co, i),
                 row_max - consecutive_empty_rows >= x0 - (t - m), consecutive_empty_rows <= t - m, col_max < 0x7fff_ffff, co.len() <= 0x7fff_ffff,
-                reps_pos(rp) ==> empty_row_repeats == rep_sum(rp, t) - rep_sum(rp, pb) && consecutive_empty_rows == t - pb
+                empty_row_repeats == rep_sum(rp, t) - rep_sum(rp, pb) && consecutive_empty_rows == t - pb
                     && row_max == x0 + (rep_sum(rp, pb) - l0) - (pb - m)
                     && (t > m ==> new_cells@.len() > 0)
                     && new_cells@ == ecells(cs, co, rp, col_min as int, col_max as int, l0, rep_sum(rp, pb)),
@@ -669,7 +686,7 @@ verif_windows_enumerate(cols, 2)
                 assert(co[i] <= co[i + 1] <= co[n]);
                 assert(*row_repeats == rp[i]);
                 assert(rep_sum(rp, i + 1) == rep_sum(rp, i) + rp[i]);
-                lemma_rep_sum_mono(rp, m, pb); lemma_rep_sum_mono(rp, pb, i);
+                lemma_rep_sum_mono(rp, m, pb); lemma_rep_sum_mono(rp, pb, i); lemma_rep_sum_mono(rp, i + 1, n);
             }
 //@@ after /let row = &cells\[w\[0\][^;]*;/#1of2
             proof {
@@ -693,29 +710,26 @@ verif_windows_enumerate(cols, 2)
             }
 //@@ before /\n\s*row_max = row_max /#0of2
                 proof {
-                    if reps_pos(rp) {
-                        assert(pb < i);
-                        assert(pb > m) by { if i == m { } }
-                    }
+                    assert(pb < i);
+                    assert(pb > m) by { if i == m { } }
                 }
                 let ghost len2 = new_cells@.len();
 //@@ loop 2 it2
                     invariant
                         cs == cells@, co == cols@, rp == rows_repeats@, n == co.len() - 1, wf_shape(cs, co, rp), lawful::<T>(),
                         empty_cells@.len() == col_max + 1, forall|j: int| 0 <= j < empty_cells@.len() ==> empty_cells@[j] == dflt::<T>(),
-                        0 <= m <= pb <= i < n, l0 == rep_sum(rp, m), col_min <= col_max,
+                        0 <= m <= pb <= i < n, l0 == rep_sum(rp, m), col_min <= col_max, reps_pos(rp),
                         forall|r: int| pb <= r < i ==> blank_row(cs, co, r),
                         new_cells@.len() >= len2,
-                        reps_pos(rp) ==> empty_row_repeats == rep_sum(rp, i) - rep_sum(rp, pb),
-                        reps_pos(rp) ==>
-                            new_cells@ == ecells(cs, co, rp, col_min as int, col_max as int, l0, rep_sum(rp, pb) + it2.index@),
+                        empty_row_repeats == rep_sum(rp, i) - rep_sum(rp, pb),
+                        new_cells@ == ecells(cs, co, rp, col_min as int, col_max as int, l0, rep_sum(rp, pb) + it2.index@),
 //@@ before /new_cells\.extend_from_slice\(/#0of5
                     let ghost v0 = new_cells@;
 //@@ after /new_cells\.extend_from_slice\([^;]*;/#0of5
                     proof {
                         let sl = empty_cells@.subrange(col_min as int, col_max + 1);
                         lemma_extend::<T>(v0, sl, new_cells@);
-                        if reps_pos(rp) {
+                        {
                             let l = rep_sum(rp, pb) + it2.index@;
                             lemma_rep_sum_mono(rp, m, pb);
                             let ip = lemma_find_phys(rp, pb, i, l);
@@ -735,10 +749,8 @@ verif_windows_enumerate(cols, 2)
                 proof { pb = i; }
 //@@ before /if row_repeats >/
             proof {
-                if reps_pos(rp) {
-                    assert(rp[i] >= 1);
-                    if pb != i { lemma_rep_sum_ge(rp, pb, i); assert(false); }
-                }
+                assert(rp[i] >= 1);
+                if pb != i { lemma_rep_sum_ge(rp, pb, i); assert(false); }
                 pb = i;
             }
             let ghost len3 = new_cells@.len();
@@ -748,10 +760,9 @@ verif_windows_enumerate(cols, 2)
                     empty_cells@.len() == col_max + 1, forall|j: int| 0 <= j < empty_cells@.len() ==> empty_cells@[j] == dflt::<T>(),
                     0 <= m <= i < n, l0 == rep_sum(rp, m), col_min <= col_max, col_min < row@.len(), col_max < 0x7fff_ffff,
                     row@ == cs.subrange(co[i] as int, co[i + 1] as int), co[i] <= co[i + 1] <= cs.len(),
-                    row_repeats == rp[i],
+                    row_repeats == rp[i], reps_pos(rp),
                     new_cells@.len() >= len3, it3.index@ > 0 ==> new_cells@.len() > 0,
-                    reps_pos(rp) ==>
-                        new_cells@ == ecells(cs, co, rp, col_min as int, col_max as int, l0, rep_sum(rp, i) + it3.index@),
+                    new_cells@ == ecells(cs, co, rp, col_min as int, col_max as int, l0, rep_sum(rp, i) + it3.index@),
 //@@ before /match row\.len\(\)\.cmp/
                 let ghost v0 = new_cells@;
                 let ghost mut v1 = new_cells@;
@@ -781,7 +792,7 @@ verif_windows_enumerate(cols, 2)
                         if col_min + j < row@.len() { assert(row@[col_min + j] == cs[co[i] + col_min + j]); }
                     }
                     assert(new_cells@ =~= v0 + pe);
-                    if reps_pos(rp) {
+                    {
                         let l = rep_sum(rp, i) + it3.index@;
                         lemma_rep_sum_mono(rp, m, i);
                         assert(rep_sum(rp, i + 1) == rep_sum(rp, i) + rp[i]);
@@ -795,7 +806,7 @@ verif_windows_enumerate(cols, 2)
             proof {
                 pb = i + 1;
                 assert(rep_sum(rp, i + 1) == rep_sum(rp, i) + rp[i]);
-                if reps_pos(rp) { assert(rp[i] >= 1); }
+                assert(rp[i] >= 1);
                 if i == x0 { } else { assert(i < x0); }
             }
 //@@ before /cells = new_cells;/
@@ -806,14 +817,13 @@ verif_windows_enumerate(cols, 2)
 //@@ before /let row_min = row_min \+ first_empty_rows_repeated;/
     let ghost mut wit: (int, int, int, int) = (0, 0, 0, 0);
     proof {
-        if hyp(cs, co, rp) {
-            wit = lemma_get_range_post(cs, co, rp, m, x0 as int, col_min as int, col_max as int, first_empty_rows_repeated as int, row_max as int,
-                gm_c, gx_c, gmin, gmax, cells@, row_min + first_empty_rows_repeated, row_max + first_empty_rows_repeated);
-        }
+        lemma_rep_sum_mono(rp, 0, m); lemma_rep_sum_mono(rp, m, x0 + 1); lemma_rep_sum_mono(rp, x0 + 1, n);
+        wit = lemma_get_range_post(cs, co, rp, m, x0 as int, col_min as int, col_max as int, first_empty_rows_repeated as int, row_max as int,
+            gm_c, gx_c, gmin, gmax, cells@, row_min + first_empty_rows_repeated, row_max + first_empty_rows_repeated);
     }
 //@@ before /Range \{\n/
     proof {
-        if hyp(cs, co, rp) {
+        {
             let a0 = row_min as u32 as int;
             let a1 = row_max as u32 as int;
             let b0 = col_min as u32 as int;
@@ -860,7 +870,7 @@ use zip::result::ZipError;
 
 //@@ item src/ods.rs enum OdsError
 
-pub enum EvKind { Start, End, Text, Other, Error }
+pub enum EvKind { Start, End, Text, Comment, Other, Error }
 pub ghost struct Attr {
     pub key: Seq<u8>,     // qualified attribute name
     pub raw: Seq<u8>,     // value bytes as written between the quotes (what `Attribute::value` holds)
@@ -887,8 +897,8 @@ pub struct BytesStart<'a> { _p: core::marker::PhantomData<&'a ()> }
 pub struct BytesEnd<'a> { _p: core::marker::PhantomData<&'a ()> }
 #[verifier::external_body]
 pub struct BytesText<'a> { _p: core::marker::PhantomData<&'a ()> }
-// `Other` stands for Comment / CData / PI / Decl / DocType (never named by the verified code; `Empty` cannot occur with expand_empty_elements)
-pub enum Event<'a> { Start(BytesStart<'a>), End(BytesEnd<'a>), Text(BytesText<'a>), Other, Eof }
+// `Other` stands for CData / PI / Decl / DocType (never named by the verified code; `Empty` cannot occur with expand_empty_elements)
+pub enum Event<'a> { Start(BytesStart<'a>), End(BytesEnd<'a>), Text(BytesText<'a>), Comment(BytesText<'a>), Other, Eof }
 impl<'a> BytesStart<'a> {
     pub uninterp spec fn ev(&self) -> Ev;
     #[verifier::external_body]
@@ -908,6 +918,7 @@ pub open spec fn ev_result<'b>(r: Result<Event<'b>, quick_xml::Error>, e: Ev) ->
         EvKind::Start => r matches Ok(Event::Start(b)) && b.ev() == e,
         EvKind::End => r matches Ok(Event::End(b)) && b.ev() == e,
         EvKind::Text => r matches Ok(Event::Text(b)) && b.ev() == e,
+        EvKind::Comment => r matches Ok(Event::Comment(b)) && b.ev() == e,
         EvKind::Other => r matches Ok(Event::Other),
         EvKind::Error => r is Err,
     }
@@ -1172,11 +1183,16 @@ pub open spec fn cell_next(evs: Seq<Ev>, p: nat) -> nat {
     let a = evs[p as int].attrs;
     if gd_closed(evs, p + 1, a) { gd_next(evs, p + 1, a) } else { rte_next(evs, gd_next(evs, p + 1, a), evs[p as int].name) }
 }
+/// character data and comments between the cells of a row (the white space of an indented content.xml) are not part of the table
+/// (ODF 1.2 9.1.3: <table:table-row> has element content only)
+pub open spec fn is_filler(e: Ev) -> bool { e.kind is Text || e.kind is Comment }
 /// the cell elements of the row whose content starts at event p, in document order
 pub open spec fn row_cells(evs: Seq<Ev>, p: nat) -> Seq<CellEl>
     decreases (if p <= evs.len() { evs.len() - p } else { 0 })
 {
-    if p >= evs.len() || !is_cell_start(evs[p as int]) || cell_next(evs, p) <= p { Seq::empty() }
+    if p >= evs.len() { Seq::empty() }
+    else if is_filler(evs[p as int]) { row_cells(evs, p + 1) }
+    else if !is_cell_start(evs[p as int]) || cell_next(evs, p) <= p { Seq::empty() }
     else { seq![cell_el(evs, p)] + row_cells(evs, cell_next(evs, p)) }
 }
 /// THE LOGICAL ROW: every cell element contributes n copies of its value
@@ -1255,6 +1271,7 @@ impl From<quick_xml::events::attributes::AttrError> for OdsError { #[verifier::e
             && final(reader).pos() == gd_next(old(reader).events(), old(reader).pos(), atts.rem()),
 //@@ end
 
+//@@ item src/ods.rs const MAX_COLUMNS
 //@@ fn src/ods.rs read_row props=C04 entry ret=r r4
 //@@ r6 1
 //@@ replace /a\.map_err\(OdsError::XmlAttr\)/ Verus does not support a datatype constructor as a function value; eta-expanded
@@ -1271,6 +1288,10 @@ verif_parse_repeats(reader, &a)
         //# C04.row_repeat_expansion_formulas
         r is Ok ==> exists|out: Seq<Seq<char>>| strs(final(formulas)@) == strs(old(formulas)@) + out
             && row_f_ok(expand_f(row_cells(old(reader).events(), old(reader).pos())), out),
+        //# C06.row_within_grid_columns
+        r is Ok ==> expand_v(row_cells(old(reader).events(), old(reader).pos())).len() <= grid_cols(),
+        //# C06.row_growth_within_grid_columns
+        r is Ok ==> final(cells)@.len() - old(cells)@.len() <= grid_cols() && final(formulas)@.len() - old(formulas)@.len() <= grid_cols(),
 //@@ body
     let ghost evs = reader.events();
     let ghost p0 = reader.pos();
@@ -1288,6 +1309,8 @@ verif_parse_repeats(reader, &a)
             cells@ == c0 + av, av + empties(empty_col_repeats as int) =~= expand_v(done),
             strs(formulas@) == f0 + af, af + emptyf(empty_col_repeats as int) =~= expand_f(done),
             forall|a: Data, b: Data| call_ensures(<Data as Clone>::clone, (&a,), b) ==> a == b,
+            //# C06.row_len_counts_the_columns
+            row_len == av.len() + empty_col_repeats && row_len == af.len() + empty_col_repeats && row_len <= grid_cols(),
         ensures
             row_cells(evs, p0) == done,
         decreases (if reader.pos() <= evs.len() { evs.len() - reader.pos() } else { 0 }),
